@@ -9,15 +9,17 @@ import ast, inspect, textwrap
 
 class T3:
     """python (whitelisted subset) -> Lean 4 term. Returns Except String α style via `throw`."""
-    def __init__(self, bindings, calls):
+    def __init__(self, bindings, calls, strmap=None, excmap=None, ret="pure %s", throw='throw "%s"'):
         self.b = bindings; self.calls = calls
+        self.strmap = strmap or {}; self.excmap = excmap or {}
+        self.ret = ret; self.throw = throw
     def expr(self, e):
         if isinstance(e, ast.Constant):
             v = e.value
             if v is None: return "none"
             if isinstance(v, bool): return "true" if v else "false"
             if isinstance(v, int): return str(v)
-            if isinstance(v, str): return '"%s"' % v
+            if isinstance(v, str): return self.strmap.get(v, '"%s"' % v)
         if isinstance(e, ast.Name):
             return self.b.get(e.id, e.id)
         if isinstance(e, ast.Attribute):
@@ -45,9 +47,10 @@ class T3:
         if isinstance(s, ast.Expr) and isinstance(s.value, ast.Constant):   # docstring
             return self.block(stmts[1:], ind)
         if isinstance(s, ast.Return):
-            return pad + "pure " + self.expr(s.value)
+            return pad + self.ret % self.expr(s.value)
         if isinstance(s, ast.Raise):
-            return pad + 'throw "%s"' % ast.unparse(s.exc.func).split(".")[-1]
+            exc = ast.unparse(s.exc.func).split(".")[-1]
+            return pad + self.throw % self.excmap.get(exc, exc)
         if isinstance(s, ast.If):
             rest = stmts[1:]
             els = s.orelse if s.orelse else rest
@@ -64,8 +67,8 @@ class T3:
 
 
 
-def translate_function(f, name, sig, bindings=None, calls=None, post=None):
-    t = T3(bindings or {}, calls or {})
+def translate_function(f, name, sig, bindings=None, calls=None, post=None, **kw):
+    t = T3(bindings or {}, calls or {}, **kw)
     out = t.fun(f, name, sig)
     if post:
         out = post(out)
